@@ -208,7 +208,7 @@ def c15(tier, seed):
     out.append(case('churn-pair-qsbr', 'gp', 'qsbr', 'plain',
                     ['--cfg=churn-pair-qsbr', '--scenarios=%d' % (40 * scale), '--readers=1', '--updaters=1', '--gps=200',
                      '--reader-sections=0', '--churn=1', '--churn-direct-pct=40', '--tun-qs=1', '--tun-wait=1', '--reader-delay=0',
-                     '--nest=1', '--updaters-registered=0'], {}, cpus=2, timeout=240 * scale))
+                     '--nest=1', '--updaters-registered=0', '--placement=0'], {}, cpus=2, timeout=240 * scale))
     for fl in ('memb', 'qsbr'):
         out.append(case('churn-tsan-%s' % fl, 'gp', fl, 'tsan',
                         ['--cfg=churn-tsan-%s' % fl, '--readers=3', '--updaters=2', '--gps=%d' % (400 * scale), '--churn=1',
